@@ -162,6 +162,25 @@ impl NamespaceStates {
         }
     }
 
+    /// Verification hook: `(state, resync_requested)` for a namespace and node; state 0 = idle,
+    /// 1 = running (connect), 2 = running (accept). `None` if the namespace is not syncing.
+    #[cfg(iroh_docs_verif)]
+    pub fn verif_snapshot(&mut self, namespace: &NamespaceId, node: EndpointId) -> Option<(u8, bool)> {
+        let state = self.entry(namespace, node)?;
+        let s = match &state.state {
+            SyncState::Idle => 0,
+            SyncState::Running {
+                origin: Origin::Connect(_),
+                ..
+            } => 1,
+            SyncState::Running {
+                origin: Origin::Accept,
+                ..
+            } => 2,
+        };
+        Some((s, state.resync_requested))
+    }
+
     /// Remove a namespace from the set of syncing namespaces.
     pub fn remove(&mut self, namespace: &NamespaceId) -> bool {
         self.0.remove(namespace).is_some()
